@@ -224,6 +224,20 @@ T = [
      "            if features.is_finished(started_scenarios.is_break()).await {\n                break;\n            }\n", "            let done =\n                features.is_finished(started_scenarios.is_break()).await;\n            if done {\n                break;\n            }\n"),
     ("equiv_c02_rename_helper", "silent:C02,C05,C09,C10", B,
      "    fn emit_failed_events(", "    fn emit_deferred_failure(\n//+\n                self.emit_failed_events(\n//=\n                self.emit_deferred_failure("),
+    # ---- C20
+    ("c20_step_result_before_span_closed", "C20/R2", B,
+     "        let result = run.then_yield().await;\n\n        #[cfg(feature = \"tracing\")]\n        if let Some((waiter, id)) = waiter.zip(span_id) {",
+     "        let result = run.then_yield().await;\n\n        #[cfg(feature = \"tracing\")]\n        if let Some((waiter, id)) = waiter.zip(span_id).filter(|_| is_background) {"),
+    ("c20_attempt_span_for_fresh_id", "C20/R1", B,
+     "            let span = id.scenario_span();", "            let span = ScenarioId::new().scenario_span();"),
+    ("c20_finish_wrong_scenario", "C20/R3", B,
+     "                    coll.finish_scenario(id);", "                    coll.finish_scenario(ScenarioId::new());\n                    let _ = id;"),
+    ("c20_forwarder_yields_between_logs", "C20/R3", B,
+     "                        while let Some(logs) = logs_collector\n                            .as_mut()\n                            .and_then(TracingCollector::emitted_logs)\n                        {\n                            executor.send_all_events(logs);\n                        }\n                        future::ready(()).then_yield().await;",
+     "                        if let Some(logs) = logs_collector\n                            .as_mut()\n                            .and_then(TracingCollector::emitted_logs)\n                        {\n                            executor.send_all_events(logs);\n                        }\n                        future::ready(()).then_yield().await;"),
+    ("c20_after_hook_not_instrumented", "C20/R1", B,
+     "                let span = scenario_id.hook_span(HookType::After);\n                let span_id = span.id();\n                let fut = tracing::Instrument::instrument(fut, span);\n                (fut, span_id)",
+     "                let span = scenario_id.hook_span(HookType::After);\n                let span_id = span.id();\n                drop(span);\n                (fut, span_id)"),
     # ---- C10
     ("c10_world_new_outside_catch", "C10/R1", B,
      "                match AssertUnwindSafe(async { W::new().await })\n                    .catch_unwind()\n                    .then_yield()\n                    .await\n                {\n                    Ok(Ok(w)) => w,",
